@@ -76,7 +76,22 @@ impl Parsable for char {
     fn parse_impl<S: TexlangState>(input: &mut vm::ExpandedStream<S>) -> txl::Result<Self> {
         let u1 = Uint::<{ char::MAX as usize }>::parse(input)?;
         let u2: u32 = u1.0.try_into().unwrap();
-        Ok(char::from_u32(u2).unwrap())
+        match char::from_u32(u2) {
+            Some(c) => Ok(c),
+            None => {
+                // Not every number below char::MAX is a Unicode scalar value:
+                // the surrogate code points 0xD800 to 0xDFFF are not characters.
+                input.error(
+                    parse::Error::new(
+                        "a character code",
+                        None,
+                        "the numbers 55296 to 57343 inclusive are surrogate code points and not characters",
+                    )
+                    .with_got_override(format!["got the integer {u2}"]),
+                )?;
+                Ok('\0')
+            }
+        }
     }
 }
 
